@@ -41,10 +41,15 @@ Prog(ps) ==
   LET n == Len(ps)
       called == IF n >= 2 THEN <<IFn("usep", <<>>, <<ps[2].t>>, BlkE(<<>>, EParam(ps[2].n)))>> ELSE <<>>
       unused == IF n >= 3 THEN <<IFn("never", <<Param("x", T1)>>, <<ps[3].t>>, BlkE(<<>>, EParam(ps[3].n)))>> ELSE <<>>
+      \* loops in front of the parameter uses (the compiler hands its argument map to the scope of a loop function)
+      loops == <<IFn("keepacc", <<Param("e", T8), Param("acc", T8)>>, <<T8>>, BlkE(<<>>, V("acc"))),
+                 IFn("stop", <<Param("acc", T8), Param("c", T8), Param("i", T1)>>, <<TEither(T8, T8)>>, BlkE(<<>>, ELeft(V("acc"))))>>
+      s0 == IF n >= 1 THEN <<SLet(PId("f0"), T8, ECall(CFold("keepacc", 2), <<EList(<<Dec(1)>>), Dec(7)>>)),
+                             SLet(PId("l0"), TEither(T8, T8), ECall(CForWhile("stop"), <<V("f0"), Dec(0)>>))>> ELSE <<>>
       s1 == IF n >= 1 THEN <<SLet(PId("r"), ps[1].t, EParam(ps[1].n)), SLet(PId("x"), ps[1].t, EWit("E1"))>> \o Obs(ps[1].t, "r", "x") ELSE <<>>
       s2 == IF n >= 2 THEN <<SExpr(Blk(<<SLet(PId("r"), ps[2].t, ECall(CFn("usep"), <<>>)), SLet(PId("x"), ps[2].t, EWit("E2"))>> \o Obs(ps[2].t, "r", "x")))>> ELSE <<>>
       s4 == IF n >= 4 THEN <<SExpr(Blk(<<SLet(PId("r"), ps[4].t, EParam(ps[4].n)), SLet(PId("x"), ps[4].t, EParam(ps[4].n))>> \o Obs(ps[4].t, "r", "x")))>> ELSE <<>>
-  IN called \o unused \o <<Main(Blk(s1 \o s2 \o s4))>>
+  IN (IF n >= 1 THEN loops ELSE <<>>) \o called \o unused \o <<Main(Blk(s0 \o s1 \o s2 \o s4))>>
 
 WDeclsOf(ps) == (IF Len(ps) >= 1 THEN <<<<"E1", ps[1].t>>>> ELSE <<>>) \o (IF Len(ps) >= 2 THEN <<<<"E2", ps[2].t>>>> ELSE <<>>)
 
